@@ -3,6 +3,13 @@
 import json, sys
 
 CLAIMED = {
+ "C09": dict(
+   category="model_checking",
+   text="Explicit-state BFS to closure (4 systems quick, ~66 000 states; 8 thorough) over the real ObjectSet, ObjectSetPhase and ObjectDeployment controllers with: the user pausing/unpausing the ObjectSet or the ObjectDeployment at any point of rollout and handover (template edit T1{a,b}->T2{a,c}), workload status changes, a third party deleting, modifying or re-owning managed objects (drift), garbage collector. Monitors: in every pass of an owner whose spec the pass read as paused (not terminating/archived) there is no effective create/update/patch/delete on any object listed in it, the pass still persists Paused (True; Unknown only while delegated phases have not confirmed) and an Available condition for the current generation whose status equals an independent reference probing of what the cache shows; in every pass of a paused ObjectDeployment no ObjectSet is created, archived or deleted and (once all revisions have reported their number) every non-archived revision ends paused; an unpaused ObjectDeployment switches to Active only revisions carrying the paused-by-parent marker and leaves none of them paused-by-parent.",
+   design_ref="DESIGN.md §7 C09",
+   note="Trusted: kmodel; Package-level pause propagation is covered by the C16 package harness monitor (Package.spec.paused -> ObjectDeployment.spec.paused).",
+   technique="explicit-state model checking (BFS, canonical state hashing) with trace monitors on paused passes",
+   engine="world"),
  "C06": dict(
    category="model_checking",
    text="Explicit-state BFS to closure (5 systems quick / 10 thorough, ~95 000 states quick) over the real ObjectSet and ObjectSetPhase controllers with workload status changes (ready / not-ready / stale observedGeneration), user pause / unpause / archive / delete, the garbage collector and operator crashes before request i of a pass; systems are a single ObjectSet with 2-3 local/delegated phases and a two-revision handover chain r1{a,b} -> r2{a,c}. On every status write of the ObjectSet controller: Available=True for generation G requires that the pass read generation G, saw every object of every phase present and passing the independent reference prober (delegated: phase object Available for its current generation) and that controllerOf equals exactly what the pass saw under the ObjectSet's control; Succeeded is only newly set together with Available and without InTransition and is never withdrawn; InTransition is only cleared when every spec object was seen controlled; Archived=True comes without Available and with empty controllerOf, and afterwards the controller sends nothing but the initial read.",
